@@ -522,9 +522,11 @@ def _execute(E, w, spec, workdir):
         for k in mutated_later(r):
             V("result-mutated-later", "%s:%s" % (r["path"], k), q=r["q"])
     # B. pairwise agreement at common (q, dirkey)
-    # Group velocities are symmetrised with the primitive cell's point group unless a perturbation direction is given;
-    # when the supercell shape breaks that point group (phonopy warns) the force constants do not have the symmetry and
-    # symmetrised / unsymmetrised velocities legitimately differ: cross-path gv comparison is then skipped (and counted).
+    # Group velocities are symmetrised with the primitive cell's point group unless a perturbation direction is given
+    # (run_qpoints with nac_q_direction).  Symmetrised and unsymmetrised velocities are different computations and
+    # legitimately differ when the force constants / the truncated NAC sum do not have the full point symmetry at that q
+    # (supercell shape breaking the point group; q outside the first zone with Gonze-Lee NAC): group velocities are
+    # compared across paths only between reports produced in the same mode.
     sym_ok = len(ph.symmetry.pointgroup_operations) == len(ph.primitive_symmetry.pointgroup_operations)
     if not sym_ok:
         probes["supercell_breaks_point_group:gv_cross_comparison_skipped"] = 1
@@ -542,7 +544,7 @@ def _execute(E, w, spec, workdir):
                 return "unsymmetrised" if (x["path"] == "qpoints" and tasks[x["task"]].get("direction") is not None) else "symmetrised"
 
             same_gv_mode = gv_mode(r) == gv_mode(base)
-            for what, size in compare_reports(r, base, scale, compare_gv=(sym_ok or same_gv_mode)):
+            for what, size in compare_reports(r, base, scale, compare_gv=same_gv_mode):
                 V("paths-disagree", "%s~%s:%s" % tuple(sorted([r["path"].split(":")[0], base["path"].split(":")[0]]) + [what]), size=size, q=key[0], a=desc(r), b=desc(base))
     # C. each task alone on a fresh object under the serial build
     ref_fail = 0
